@@ -32,7 +32,10 @@ PROPERTY = "C08"
 RULE = ("Hypothesis: data tensors of order 2-5 (sides 1-4, <= 400 entries; classes signed normal / exactly low CP rank / "
         "non-negative / ints / sparse), every decomposition entry point, rank specs int / list / 'same' / fractions 0.3-1.0, "
         "inits svd / random / user, tol from 1e-1 (convergence exit) to 0 (cap exit), n_iter_max in {0,1,2,5,8}, "
-        "normalize_factors both, every TR start mode, partial_tucker on every mode subset. Oracle: factor/core shapes from the "
+        "normalize_factors both, every TR start mode, partial_tucker on every mode subset; parafac / randomised_parafac / "
+        "TR-ALS also stopped by a user callback at a drawn sweep (third stop path, label stop=callback); Tucker data also of "
+        "exactly low multilinear rank or with duplicated / zeroed slices (over-requested ranks), svd truncated / symeig; "
+        "two-call histories reusing one rank list object for tensor_train / tensor_ring. Oracle: factor/core shapes from the "
         "library's validate_*_rank followed by an independent sequential clipping by unfolding sizes; TT boundary ranks 1, TR "
         "r0 = rN and chain consistency, one orthonormal projection per PARAFAC2 slice and equal cross-products; HOOI factors "
         "orthonormal and core = ref.multi_mode_dot(X, U^T); TT-SVD cores left-orthogonal except the last; with "
@@ -147,6 +150,8 @@ def _cp_case(draw, algo, normalize, iters=(0, 1, 2, 5, 8), inits=("svd", "random
          "cvg": draw(st.sampled_from(["abs_rec_error", "abs_rec_error", "rec_error"]))}
     if algo == "parafac":
         c["linesearch"] = draw(st.booleans()) and draw(st.booleans())
+        # third stop path: the user callback returns True at sweep `cb_stop` (0-based); None = no callback
+        c["cb_stop"] = draw(st.one_of(st.none(), st.integers(0, max(0, c["n_iter"] - 1)))) if c["n_iter"] >= 1 else None
     if algo == "nn_hals":
         c["nn_sub"] = draw(st.booleans()) and draw(st.booleans())
     if c["init"] == "user":
@@ -173,6 +178,23 @@ def _cp_user_init(c, shape, rank, nonneg):
     return (w, facs)
 
 
+class _StopAt:
+    """stopping callback: call 0 is the library's call on the initial iterate (return value ignored there), call i >= 1
+    belongs to sweep i - 1; returns True exactly at sweep `k`.  Records in the *transient* key "_cb_fired" of the case
+    whether the stop request was issued (the run may have ended earlier by convergence)."""
+
+    def __init__(self, k, case=None, initial_call=True):
+        self.k, self.calls, self.fired, self.initial = k, 0, False, initial_call
+
+    def __call__(self, *args):
+        sweep = self.calls - (1 if self.initial else 0)
+        self.calls += 1
+        if sweep == self.k:
+            self.fired = True
+            return True
+        return None
+
+
 def _run_cp(c, x, rank):
     algo = c["algo"]
     init = c["init"] if c["init"] != "user" else _cp_user_init(c, x.shape, rank, algo in ("nn_mu", "nn_hals"))
@@ -180,6 +202,8 @@ def _run_cp(c, x, rank):
     if c.get("fixed") is not None and c["init"] == "user":
         kw["fixed_modes"] = list(c["fixed"])
     if algo == "parafac":
+        if c.get("cb_stop") is not None:
+            kw["callback"] = _StopAt(c["cb_stop"], c)
         return parafac(x, c["rank"], n_iter_max=c["n_iter"], init=init, normalize_factors=c["normalize"], tol=c["tol"],
                        random_state=c["seed"], return_errors=True, cvg_criterion=c["cvg"], linesearch=c["linesearch"], **kw)
     if algo == "nn_mu":
@@ -203,13 +227,18 @@ def o_cp(c):
     stop = stop_path(errors, c["n_iter"], c["tol"], c["cvg"])
     if c["n_iter"] == 0:
         stop = "iter0"
+    if c.get("cb_stop") is not None and len(errors) == c["cb_stop"] + 1:
+        # the run ended in the sweep at which the callback answered True (the callback is consulted before the
+        # convergence test, so this exit is the callback's even if the tolerance was met in the same sweep)
+        stop = "callback"
     if c["normalize"]:
         unit_columns(w, facs, f"{clause}/normalized/{stop}")
     else:
         weights_are_ones(w, clause)
     return {"nontrivial": x.ndim >= 3,
             "labels": [f"order={x.ndim}", f"stop={stop}", f"init={c['init']}", f"n_iter={c['n_iter']}", f"tol={c['tol']}",
-                       f"rankspec={type(c['rank']).__name__}", f"rank_gt_side={rank > min(x.shape)}"]}
+                       f"rankspec={type(c['rank']).__name__}", f"rank_gt_side={rank > min(x.shape)}",
+                       f"callback={c.get('cb_stop') is not None}"]}
 
 
 # randomised_parafac / constrained_parafac: shapes + exact-ones weights
@@ -222,6 +251,7 @@ def _cp_other_case(draw, algo):
     if algo == "randomised":
         c["n_samples"] = draw(st.integers(c["rank"] + 2, 16))
         c["n_iter"] = max(1, c["n_iter"])
+        c["cb_stop"] = draw(st.one_of(st.none(), st.integers(0, c["n_iter"] - 1)))
     else:
         c["cons"] = draw(st.sampled_from(["non_negative", "l1_reg", "normalize", "unimodality"]))
     return c
@@ -231,8 +261,11 @@ def o_cp_other(c):
     x = _data(c)
     rank = _cp_rank(x.shape, c["rank"])
     if c["algo"] == "randomised":
+        kw = {}
+        if c.get("cb_stop") is not None:
+            kw["callback"] = _StopAt(c["cb_stop"])
         res = randomised_parafac(x.copy(), c["rank"], c["n_samples"], n_iter_max=c["n_iter"], init=c["init"], tol=c["tol"],
-                                 random_state=c["seed"])
+                                 random_state=c["seed"], **kw)
     else:
         np.random.seed(c["seed"] % (2 ** 32))
         kw = {c["cons"]: (0.1 if c["cons"] == "l1_reg" else True)}
@@ -242,7 +275,8 @@ def o_cp_other(c):
     cp_shapes(w, facs, x.shape, rank, c["algo"])
     weights_are_ones(w, c["algo"])
     return {"nontrivial": x.ndim >= 3, "labels": [f"order={x.ndim}", f"init={c['init']}", f"n_iter={c['n_iter']}",
-                                                  f"rankspec={type(c['rank']).__name__}"]}
+                                                  f"rankspec={type(c['rank']).__name__}",
+                                                  f"callback={c.get('cb_stop') is not None}"]}
 
 
 # ----------------------------------------------------------------------------
@@ -360,9 +394,12 @@ def _tucker_rankspec(draw, nd):
     return draw(st.sampled_from([0.3, 0.5, 0.75, 1.0]))
 
 
+TUCKER_KINDS = KINDS + ("lowtucker", "lowtucker", "dupslice", "dupslice")
+
+
 @st.composite
 def _tucker_case(draw):
-    x = draw(_tensor(2, 5, 1, 4, max_size=300))
+    x = draw(_tensor(2, 5, 1, 4, max_size=300, kinds=TUCKER_KINDS))
     nd = len(x["s"])
     return {"x": x, "rank": draw(_tucker_rankspec(nd)), "init": draw(st.sampled_from(["svd", "svd", "random"])),
             "seed": draw(st.integers(0, 10 ** 6)), "n_iter": draw(st.sampled_from([0, 1, 2, 5])),
@@ -385,10 +422,17 @@ def _hooi_clauses(x, core, facs, modes, ranks, clause, check_ortho, check_core):
         close(core, want, f"{clause}/core_projection", rel=1e-8, scale=max(1.0, float(np.linalg.norm(x))))
 
 
+def _over_requested(x, modes, ranks):
+    """label: some requested (side-clipped) rank exceeds the numerical rank of that mode's unfolding"""
+    for m, r in zip(modes, ranks):
+        unf = np.moveaxis(x, m, 0).reshape(x.shape[m], -1)
+        if min(int(r), x.shape[m]) > np.linalg.matrix_rank(unf):
+            return True
+    return False
+
+
 def o_tucker(c):
     x = _data(c)
-    if c["svd"] == "symeig_svd" and min(x.shape) == 1 and False:
-        discard("x")
     ranks = validate_tucker_rank(tuple(x.shape), rank=c["rank"] if not isinstance(c["rank"], list) else list(c["rank"]))
     res, errors = tucker(x.copy(), c["rank"] if not isinstance(c["rank"], list) else list(c["rank"]), n_iter_max=c["n_iter"],
                          init=c["init"], tol=c["tol"], random_state=c["seed"], svd=c["svd"], return_errors=True)
@@ -405,15 +449,18 @@ def o_tucker(c):
             assert_shape(f, (x.shape[m], int(ranks[m])), "tucker/random_iter0/factor_shape")
         assert_shape(core, [int(r) for r in ranks], "tucker/random_iter0/core_shape")
     else:
-        # the ortho clause needs exact singular vectors: symeig_svd on rank-deficient unfoldings is KF-C05-1's class
-        ortho = svd_based and c["svd"] == "truncated_svd"
+        # `svd` only selects the routine of the *initialisation*; every HOOI sweep uses the default truncated SVD, so after
+        # >= 1 sweep the factors are orthonormal whatever `svd` is.  Only (symeig_svd init, no sweep) on rank-deficient
+        # unfoldings is KF-C05-1's class and not asserted.
+        ortho = c["n_iter"] >= 1 or (c["init"] == "svd" and c["svd"] == "truncated_svd")
         _hooi_clauses(x, core, facs, list(range(x.ndim)), ranks, "tucker", ortho, svd_based)
     stop = "cap"
     if c["tol"] and len(errors) >= 3 and abs(errors[-2] - errors[-1]) < c["tol"]:
         stop = "converged"
     return {"nontrivial": x.ndim >= 3, "labels": [f"order={x.ndim}", f"stop={stop}", f"init={c['init']}", f"n_iter={c['n_iter']}",
-                                                  f"rankspec={type(c['rank']).__name__}", f"svd={c['svd']}",
-                                                  f"clipped={any(int(r) > s for r, s in zip(ranks, x.shape))}"]}
+                                                  f"rankspec={type(c['rank']).__name__}", f"svd={c['svd']}", f"data={c['x']['kind']}",
+                                                  f"clipped={any(int(r) > s for r, s in zip(ranks, x.shape))}",
+                                                  f"rank_deficient={_over_requested(x, list(range(x.ndim)), ranks)}"]}
 
 
 @st.composite
@@ -455,14 +502,15 @@ def o_tucker_fixed(c):
 
 @st.composite
 def _partial_case(draw):
-    x = draw(_tensor(2, 4, 1, 4, max_size=300))
+    x = draw(_tensor(2, 4, 1, 4, max_size=300, kinds=TUCKER_KINDS))
     nd = len(x["s"])
     modes = draw(st.lists(st.integers(0, nd - 1), unique=True, min_size=1, max_size=nd).map(sorted))
     rk = draw(st.sampled_from(["int", "list", "list"]))
     rank = draw(st.integers(1, 4)) if rk == "int" else [draw(st.integers(1, 5)) for _ in modes]
     return {"x": x, "modes": modes, "rank": rank, "init": draw(st.sampled_from(["svd", "svd", "random"])),
             "seed": draw(st.integers(0, 10 ** 6)), "n_iter": draw(st.sampled_from([0, 1, 2, 5])),
-            "tol": draw(st.sampled_from([1e-1, 1e-5, 0]))}
+            "tol": draw(st.sampled_from([1e-1, 1e-5, 0])),
+            "svd": draw(st.sampled_from(["truncated_svd", "symeig_svd"]))}
 
 
 def o_partial(c):
@@ -471,7 +519,7 @@ def o_partial(c):
     rank = c["rank"] if not isinstance(c["rank"], list) else list(c["rank"])
     ranks = [rank] * len(modes) if isinstance(rank, int) else list(rank)
     res = partial_tucker(x.copy(), rank, modes=list(modes), n_iter_max=c["n_iter"], init=c["init"], tol=c["tol"],
-                         random_state=c["seed"])
+                         random_state=c["seed"], svd=c.get("svd", "truncated_svd"))
     try:
         (core, facs), errors = res
         facs = list(facs)
@@ -483,9 +531,12 @@ def o_partial(c):
         for f, m, r in zip(facs, modes, ranks):
             assert_shape(f, (x.shape[m], r), "partial_tucker/random_iter0/factor_shape")
     else:
-        _hooi_clauses(x, core, facs, modes, ranks, "partial_tucker", True, True)
+        ortho = c["n_iter"] >= 1 or c.get("svd", "truncated_svd") == "truncated_svd"   # see o_tucker
+        _hooi_clauses(x, core, facs, modes, ranks, "partial_tucker", ortho, True)
     return {"nontrivial": x.ndim >= 3, "labels": [f"order={x.ndim}", f"nmodes={len(modes)}/{x.ndim}", f"init={c['init']}",
-                                                  f"n_iter={c['n_iter']}", f"rankspec={type(c['rank']).__name__}"]}
+                                                  f"n_iter={c['n_iter']}", f"rankspec={type(c['rank']).__name__}",
+                                                  f"svd={c.get('svd')}", f"data={c['x']['kind']}",
+                                                  f"rank_deficient={_over_requested(x, modes, ranks)}"]}
 
 
 @st.composite
@@ -606,6 +657,58 @@ def o_tt(c):
 
 
 @st.composite
+def _tt_history_case(draw, fam):
+    """the same Python list object is passed as `rank` to two successive calls: first on a small tensor A for which some
+    requested bond rank is unattainable, then on a larger tensor B"""
+    nd = draw(st.integers(3, 4))
+    small = [draw(st.integers(1, 2)) for _ in range(nd)]
+    big = [s + draw(st.integers(1, 2)) for s in small]
+    inner = [draw(st.integers(2, 6)) for _ in range(nd - 1)]
+    r0 = 1 if fam == "tt" else draw(st.integers(1, 2))
+    rank = [r0] + inner + [r0]
+    if fam == "tr":
+        rank[1] = 1 if r0 == 2 else draw(st.integers(1, 2))     # keep r0*r1 <= 2 admissible for the small first unfolding
+        small[0], small[1] = 2, 2
+        big = [s + draw(st.integers(1, 2)) for s in small]
+    return {"fam": fam, "small": small, "big": big, "rank": rank, "seedA": draw(gen.seeds), "seedB": draw(gen.seeds)}
+
+
+def _tr_expected(shape, req):
+    er = [req[0], req[1]]
+    nd = len(shape)
+    for k in range(1, nd - 1):
+        er.append(int(min(er[k] * shape[k], gen.prod(shape[k + 1:]) * er[0], req[k + 1])))
+    er.append(er[0])
+    return er
+
+
+def o_tt_history(c):
+    A = np.random.RandomState(c["seedA"] % (2 ** 32)).standard_normal(tuple(c["small"]))
+    B = np.random.RandomState(c["seedB"] % (2 ** 32)).standard_normal(tuple(c["big"]))
+    original = [int(r) for r in c["rank"]]
+    shared = list(original)                      # ONE list object used for both calls
+    fam = c["fam"]
+    if fam == "tr":
+        for shp in (A.shape, B.shape):
+            if original[0] * original[1] > min(shp[0], gen.prod(shp[1:])):
+                discard("first TR ranks inadmissible")
+        first = list(tensor_ring(A, shared))
+        second = list(tensor_ring(B, shared))
+        expA, expB = _tr_expected(A.shape, original), _tr_expected(B.shape, original)
+    else:
+        first = list(tensor_train(A, shared))
+        second = list(tensor_train(B, shared))
+        expA, expB = _tt_expected(A.shape, original), _tt_expected(B.shape, original)
+    name = "tensor_train" if fam == "tt" else "tensor_ring"
+    for k, core in enumerate(first):
+        assert_shape(core, (expA[k], A.shape[k], expA[k + 1]), f"{name}/history/first_call")
+    for k, core in enumerate(second):
+        assert_shape(core, (expB[k], B.shape[k], expB[k + 1]), f"{name}/history/second_call")
+    return {"nontrivial": expA != original and expB != expA,
+            "labels": [f"fam={fam}", f"first_clipped={expA != original}", f"second_differs={expB != expA}"]}
+
+
+@st.composite
 def _ttm_case(draw):
     n = draw(st.integers(1, 3))
     ins = [draw(st.integers(1, 3)) for _ in range(n)]
@@ -709,6 +812,7 @@ def _trals_case(draw, sampled):
         c["rand_err"] = draw(st.booleans())
     else:
         c["ls"] = draw(st.sampled_from(["lstsq", "normal_eq"]))
+    c["cb_stop"] = draw(st.one_of(st.none(), st.integers(0, c["n_iter"] - 1))) if c["n_iter"] >= 1 else None
     return c
 
 
@@ -719,19 +823,23 @@ def o_trals(c):
     req = [int(r) for r in validate_tr_rank(tuple(x.shape), rank=rank)]
     if min(req) < 1:
         discard("validated TR rank < 1")
+    kw = {}
+    if c.get("cb_stop") is not None:
+        kw["callback"] = _StopAt(c["cb_stop"])
     if "n_samples" in c:
         res = tensor_ring_als_sampled(x.copy(), rank, c["n_samples"], n_iter_max=c["n_iter"], tol=c["tol"],
-                                      uniform_sampling=c["uniform"], randomized_error=c["rand_err"], random_state=c["seed"])
+                                      uniform_sampling=c["uniform"], randomized_error=c["rand_err"], random_state=c["seed"], **kw)
         clause = "tr_als_sampled"
     else:
-        res = tensor_ring_als(x.copy(), rank, ls_solve=c["ls"], n_iter_max=c["n_iter"], tol=c["tol"], random_state=c["seed"])
+        res = tensor_ring_als(x.copy(), rank, ls_solve=c["ls"], n_iter_max=c["n_iter"], tol=c["tol"], random_state=c["seed"], **kw)
         clause = "tr_als"
     cores = list(res)
     check(len(cores) == nd, clause + "/structure", f"{len(cores)} cores")
     for k, core in enumerate(cores):
         assert_shape(core, (req[k], x.shape[k], req[k + 1]), clause + "/core_shape")
     check(np.shape(cores[0])[0] == np.shape(cores[-1])[2], clause + "/ring_closure", "r0 != rN")
-    return {"nontrivial": nd >= 3, "labels": [f"order={nd}", f"n_iter={c['n_iter']}", f"rankspec={type(c['rank']).__name__}"]}
+    return {"nontrivial": nd >= 3, "labels": [f"order={nd}", f"n_iter={c['n_iter']}", f"rankspec={type(c['rank']).__name__}",
+                                              f"callback={c.get('cb_stop') is not None}"]}
 
 
 @st.composite
@@ -926,6 +1034,8 @@ def subchecks(tier):
         S.append(SubCheck(f"nn_tucker_{algo}/plain", _nntucker_case(algo, False), o_nntucker, quick=80, thorough=800, discard_exc=LIN))
         S.append(SubCheck(f"nn_tucker_{algo}/normalized", _nntucker_case(algo, True), o_nntucker, quick=100, thorough=1000, discard_exc=LIN))
     S.append(SubCheck("tensor_train/svd", _tt_case(), o_tt, quick=300, thorough=3000, discard_exc=LIN))
+    S.append(SubCheck("tensor_train/rank_list_reused", _tt_history_case("tt"), o_tt_history, quick=100, thorough=800))
+    S.append(SubCheck("tensor_ring/rank_list_reused", _tt_history_case("tr"), o_tt_history, quick=100, thorough=800, discard_exc=LIN))
     S.append(SubCheck("tensor_train_matrix/svd", _ttm_case(), o_ttm, quick=200, thorough=2000, discard_exc=LIN))
     S.append(SubCheck("tensor_ring/svd", _tr_case(), o_tr, quick=300, thorough=3000, discard_exc=LIN, max_discard=0.6))
     S.append(SubCheck("tensor_ring_als/shapes", _trals_case(False), o_trals, quick=80, thorough=800, discard_exc=LIN))
